@@ -42,6 +42,13 @@ func findTransactionFolds(content string) []protocol.FoldingRange {
 		startLine := uint32(tx.Range.Start.Line - 1)
 		endLine := uint32(tx.Range.End.Line - 1)
 
+		// tx.Range.End is the position of the token that follows the transaction. When that
+		// token starts a line (next entry, blank line, end of a file that ends in a newline)
+		// the last line of the transaction is the one before it.
+		if tx.Range.End.Column == 1 && endLine > startLine {
+			endLine--
+		}
+
 		if endLine > startLine {
 			ranges = append(ranges, protocol.FoldingRange{
 				StartLine: startLine,
@@ -61,7 +68,9 @@ func findDirectiveFolds(content string) []protocol.FoldingRange {
 	for i := 0; i < len(lines); i++ {
 		line := lines[i]
 
-		if !isDirectiveLine(line) {
+		// directives start in the first column; an indented line is a posting or a
+		// sub-directive even if its text begins like a directive ("    P x:y  1")
+		if !isDirectiveLine(line) || isIndentedLine(line) {
 			continue
 		}
 
@@ -106,6 +115,10 @@ func isDirectiveLine(line string) bool {
 	return false
 }
 
+func isIndentedLine(line string) bool {
+	return strings.HasPrefix(line, " ") || strings.HasPrefix(line, "\t")
+}
+
 func findCommentBlockFolds(content string) []protocol.FoldingRange {
 	lines := strings.Split(content, "\n")
 	var ranges []protocol.FoldingRange
@@ -124,7 +137,10 @@ func findCommentBlockFolds(content string) []protocol.FoldingRange {
 
 		for j := i + 1; j < len(lines); j++ {
 			nextLine := strings.TrimSpace(lines[j])
-			if strings.HasPrefix(nextLine, ";") || strings.HasPrefix(nextLine, "#") {
+			// a block never mixes indented comment lines (they belong to the entry above)
+			// with top-level ones
+			if (strings.HasPrefix(nextLine, ";") || strings.HasPrefix(nextLine, "#")) &&
+				isIndentedLine(lines[j]) == isIndentedLine(lines[i]) {
 				endLine = j
 			} else {
 				break
